@@ -36,7 +36,7 @@ ASSUMPTIONS = [
     "metrics of qucumber.utils.training_statistics are not exercised (scipy is absent from /venv)",
 ]
 
-READONLY = ("sample", "stats", "apply", "rotate", "save", "grad", "probability", "eval")
+READONLY = ("sample", "sample_space", "stats", "apply", "rotate", "save", "grad", "probability", "eval")
 EVALS = [
     "psi", "amplitude", "phase", "probability", "normalization", "effective_energy", "effective_energy_gradient",
     "prob_h_given_v", "prob_v_given_latent", "isw", "isn", "isd", "rho", "pi", "pi_grad", "gamma", "gamma_grad",
@@ -53,7 +53,10 @@ def generate(seed, tier):
     for _ in range(nops):
         m = r.randrange(nm)
         x = r.random()
-        if x < 0.2:
+        if x < 0.04:
+            # the caller uses a tensor the library handed out (the enumerated basis) as ITS chain buffer, in place
+            ops.append({"op": "sample_space", "m": m, "k": r.choice([1, 2, 5])})
+        elif x < 0.2:
             ops.append({"op": "sample", "m": m, "k": r.choice([0, 1, 3, 10]), "n": r.randint(1, 8), "given": r.random() < 0.3})
         elif x < 0.35:
             ops.append({"op": "stats", "m": m, "obs": r.choice(["Z", "X", "NN", "SWAP", "sys"]), "num_samples": r.choice([3, 8, 20]), "num_chains": r.choice([0, 2, 5]), "burn_in": r.choice([0, 3]), "steps": r.choice([1, 2])})
@@ -210,6 +213,10 @@ def run_history(plan, perturbed, lib_seed, run=None):
                         out = tdigest(st.sample(op["k"], initial_state=init))
                     else:
                         out = tdigest(st.sample(op["k"], num_samples=op["n"]))
+                elif kind == "sample_space":
+                    space = st.generate_hilbert_space()
+                    res = st.sample(op["k"], initial_state=space, overwrite=True)
+                    out = (tdigest(res), tdigest(space))
                 elif kind == "stats":
                     kw = dict(num_samples=op["num_samples"], num_chains=op["num_chains"], burn_in=op["burn_in"], steps=op["steps"])
                     if op["obs"] == "sys":
@@ -482,7 +489,7 @@ def execute(plan):
             run.violate("14-repro", f"fresh interpreter under PYTHONHASHSEED={c['hashseed']} with foreign RNGs perturbed: first divergent operation is #{i - 1} ({kind})", op=kind, fresh=True)
     for s in B["fired"]["sites"]:
         run.fault("foreign_rng", s.split(":")[0] + (":" + s.split(":", 1)[1] if s.startswith("line") else ""))
-    consuming = sum(1 for op in plan["ops"] if op["op"] in ("sample", "stats", "fit", "reinit") or (op["op"] == "grad" and op["which"] == "batch"))
+    consuming = sum(1 for op in plan["ops"] if op["op"] in ("sample", "sample_space", "stats", "fit", "reinit") or (op["op"] == "grad" and op["which"] == "batch"))
     run.trace = trace + [sorted(set(s.split(":")[0] for s in B["fired"]["sites"]))]
     run.nontrivial = consuming >= 2 and B["fired"]["n"] >= 1
     run.sim["ops"] += 2 * len(plan["ops"])
